@@ -88,13 +88,17 @@ def main():
     for r in unit_results:
         infra += ["unit %s: %s" % (r["unit"], x) for x in r["infra"]]
         carriers = set()
+        reach = None
+        if prop == "C10":
+            reach = set(f["path"] for f in r["functions"] if not f["external"] and f["path"] in cfg.get("reachable", {}).get(r["unit"], []))
         for oid, o in r["obligations"].items():
             if o["label"].startswith(prop + "."):
+                if reach is not None and o["kind"] == "safety" and o["fn"] not in reach:
+                    continue
                 obligations["%s/%s" % (r["unit"], oid)] = o
                 carriers.add(o["fn"])
-        if prop == "C10":
-            carriers = set(f["path"] for f in r["functions"] if not f["external"] and f["path"] in cfg.get("reachable", {}).get(r["unit"], []))
-            obligations = {k: v for k, v in obligations.items() if not (v["kind"] == "safety" and v["fn"] not in carriers)}
+        if reach is not None:
+            carriers = reach
         for f in r["failures"]:
             lab = f["label"]
             mine = lab.startswith(prop + ".") and (prop != "C10" or f["fn"] in carriers or f.get("origin_kind") in ("spec", "raw"))
